@@ -59,6 +59,16 @@ def gen_cases(tier, seed):
             cases.append({"in": i, "out": o, "preserve": rnd.random() < 0.5,
                           "layout": rnd.choice(["C", "F", "strided", "readonly"]),
                           "vseed": rnd.randrange(2 ** 32), "n": 72000, "large": True})
+    # directed: more than 2^20 elements in non-contiguous layouts (vectorised integer oracle)
+    for i, o in (("int16", "uint8"), ("int32", "uint16"), ("uint16", "uint8"),
+                 ("float32", "uint8"), ("float64", "uint16"), ("uint8", "float32"),
+                 ("int64", "uint32"), ("float32", "uint32")):
+        for lay in ("F", "T", "C"):
+            if tier == "quick" and rnd.random() < 0.5:
+                continue
+            cases.append({"in": i, "out": o, "preserve": rnd.random() < 0.5, "layout": lay,
+                          "vseed": rnd.randrange(2 ** 32), "huge": True,
+                          "shape": rnd.choice([[70, 130, 130], [128, 128, 65]])})
     return cases
 
 
@@ -156,7 +166,62 @@ def _build(np, case, vals):
     return a, (lambda: keep.tobytes()), [v for v in base.ravel().tolist()]
 
 
+def run_huge(case):
+    import numpy as np
+    from neuroglancer_scripts.data_types import get_chunk_dtype_transformer
+    g = np.random.default_rng(case["vseed"])
+    i, o = case["in"], case["out"]
+    shape = tuple(case["shape"])
+    # values are multiples of 0.5 (floats) or plain integers: exact in every type involved
+    lo, hi = dx.INT_RANGE[o] if o in dx.INT_RANGE else (0, 255)
+    twice = g.integers(2 * lo - 600, 2 * hi + 600, size=shape, dtype=np.int64)
+    if i in dx.INT_RANGE:
+        ilo, ihi = dx.INT_RANGE[i]
+        src = np.clip(twice // 2, ilo, ihi)
+        twice = src * 2
+        base = src.astype(i)
+    else:
+        twice = np.clip(twice, -2 ** 24, 2 ** 24) if i == "float32" else twice
+        base = (twice / 2.0).astype(i)
+    if case["layout"] == "F":
+        a = np.asfortranarray(base)
+    elif case["layout"] == "T":
+        a = np.ascontiguousarray(base.transpose(2, 1, 0)).transpose(2, 1, 0)
+    else:
+        a = base
+    obs = {"elements": int(a.size), "huge_arrays": 1, "pairs": {f"{i}->{o}": 1},
+           "layouts": {case["layout"]: 1}, "preserve_true": int(case["preserve"]),
+           "preserve_false": int(not case["preserve"])}
+    before = a.tobytes() if case["preserve"] else None
+    try:
+        tr = get_chunk_dtype_transformer(np.dtype(i), np.dtype(o), warn=False)
+        res = np.asarray(tr(a, preserve_input=case["preserve"]))
+    except Exception as exc:  # noqa: BLE001
+        return {"violations": [{"kind": "conversion-raised", "detail":
+                                f"{i}->{o} {shape} layout={case['layout']}: "
+                                f"{type(exc).__name__}: {exc}"}], "obs": obs}
+    v = []
+    if case["preserve"] and a.tobytes() != before:
+        v.append({"kind": "input-modified", "detail": f"{i}->{o} {shape} huge array"})
+    if o in dx.INT_RANGE:
+        q, r = np.divmod(twice, 2)
+        want = np.clip(q + ((r == 1) & (q % 2 == 1)), lo, hi)
+    else:
+        want = twice / 2.0
+    if res.shape != shape or res.dtype != np.dtype(o) or not np.array_equal(
+            res.astype(np.float64) if o == "float32" else res.astype(np.int64), want):
+        nbad = int((res.astype(np.float64) != want.astype(np.float64)).sum()) \
+            if res.shape == shape else -1
+        v.append({"kind": "wrong-value", "detail":
+                  f"{i}->{o} preserve={case['preserve']} layout={case['layout']} shape "
+                  f"{shape}: {nbad} of {want.size} elements differ from the exact reference"})
+    return {"violations": v, "obs": obs, "evals": int(a.size), "distinct_disjoint": 1,
+            "sample": {"in": i, "out": o, "layout": case["layout"], "shape": list(shape)}}
+
+
 def run_case(case):
+    if case.get("huge"):
+        return run_huge(case)
     import numpy as np
     from neuroglancer_scripts.data_types import get_chunk_dtype_transformer
     vals = _values(case)
@@ -231,9 +296,10 @@ def gates(obs, tier):
     return {
         "transformer_reached": calls.get("chunk_transformer", 0) > 0,
         "all_type_pairs": len(obs.get("pairs", {})) == len(IN_TYPES) * len(OUT_TYPES),
-        "all_layouts": len(obs.get("layouts", {})) == len(LAYOUTS),
+        "all_layouts": all(k in obs.get("layouts", {}) for k in LAYOUTS),
         "both_reuse_modes": obs.get("preserve_true", 0) > 0 and obs.get("preserve_false", 0) > 0,
         "ties_seen": obs.get("ties", 0) > 100,
         "saturation_seen": obs.get("saturated", 0) > 100,
         "arrays_of_tens_of_thousands_of_elements": obs.get("large_arrays", 0) > 3,
+        "arrays_beyond_2_20_elements": obs.get("huge_arrays", 0) > 3,
     }
